@@ -1,8 +1,8 @@
 (* SectionsRefine.v — refinement "cursor machine = specification" (C01 / C07):
    the tree read back (`collect_raw`) from the arena built by the transliterated
    SectionsBuilder / GraphBuilder (`build_document`, Arena.v) is the pure specification
-   `spec_tree` (SectionsSpec.v), for every arena, key and block list of the claimed class
-   ([plain_items]); the node ids of that tree are length a, length a + 1, ... in pre-order
+   `spec_tree` (SectionsSpec.v), for EVERY arena, key and block list; the node ids of that tree
+   are length a, length a + 1, ... in pre-order
    (nodes are allocated in document order).  This replaces the per-run check `spec_corr`
    (Check_Norm.v, correspondence stage 7) by a theorem.
 
@@ -18,7 +18,7 @@
 
    Headlines: sections_refines_label (read back = label (spec_tree key bs) (length a), arena grew by
    tsz nodes), sections_refines (the statement of the task), sections_refines_ids,
-   sections_refines_itemlead_refuted (witness outside the class), and the end-to-end corollaries
+   sections_refines_itemlead (the former witness of F-ITEMLEAD, now an instance), and the end-to-end corollaries
    built_conserves (C01) / built_identity (C07): the theorems of SectionsFacts.v about the
    specification hold for the tree the builder builds.  No hypothesis on the old arena [a]. *)
 From IweV Require Import Str Ast RelPath Arena ArenaWF ArenaFacts Project SectionsSpec BuilderFacts Check_Norm NormFacts SectionsFacts.
@@ -134,8 +134,12 @@ Example test2 : read_back old_arena "k" sample2 = Ok (Some (label (spec_tree "k"
 Proof. vm_compute. reflexivity. Qed.
 Example test3 : read_back old_arena "k" [] = Ok (Some (label (spec_tree "k" []) 2)).
 Proof. vm_compute. reflexivity. Qed.
-Example test1_plain : forallb plain_items sample1 && forallb plain_items sample2 = true.
-Proof. reflexivity. Qed.
+(* items that do not start with text (F-LEADPANIC / F-ITEMLEAD before the builder repair) *)
+Definition sample3 : list dblock :=
+  [DBList [[DQuote (0,1) [p "q"]]; [DCode (0,1) None "c"; p "x"]; [DRule (0,1)]; [DBList [[p "a"; p "b"]]; p "c"; hd 2 "h"; p "d"];
+           [DOList [[DTable (0,1) [] [] []]]]]].
+Example test4 : read_back old_arena "k" sample3 = Ok (Some (label (spec_tree "k" sample3) 2)).
+Proof. vm_compute. reflexivity. Qed.
 
 (* ---------- facts about laid forests ---------------------------------------------------------- *)
 
@@ -572,8 +576,6 @@ Qed.
 Section Main.
   Variable dir : string.
 
-  Notation plain := (fun b => plain_items b = true).
-
   Lemma blocks_tree_nil f : blocks_tree dir f [] = [].
   Proof. destruct f; reflexivity. Qed.
 
@@ -591,55 +593,60 @@ Section Main.
 
   Definition block_ref n :=
     forall fm fs b st, dblock_size b <= n -> 4 * n + 1 <= fm -> 4 * n + 1 <= fs ->
-      plain_items b = true -> is_header b = false -> J st ->
+      is_header b = false -> J st ->
       exists st', block dir fm b st = Ok st' /\ App st (block_tree dir fs b) st' /\ J st'.
 
+  (* a section that starts with text: a heading, or the text of an item *)
+  Definition hsection_ref n :=
+    forall fm fs h body st, dblocks_size (h :: body) <= n -> 4 * n + 2 <= fm -> 4 * n + 1 <= fs ->
+      text_lead h = true -> J st ->
+      exists st', process_section dir fm (h :: body) st = Ok st' /\ App st (item_tree dir fs (h :: body)) st' /\ Q st'.
+
+  (* any list item *)
   Definition section_ref n :=
-    forall fm fs it st, dblocks_size it <= n -> 4 * n + 2 <= fm -> 4 * n + 1 <= fs ->
-      item_plain it = true -> Forall plain it -> pre_item it st ->
-      exists st', process_section dir fm it st = Ok st' /\ App st (item_tree dir fs it) st' /\
-                  (Q st -> Q st') /\ (forall h r, it = h :: r -> text_lead h = true -> Q st').
+    forall fm fs it st, dblocks_size it <= n -> 4 * n + 5 <= fm -> 4 * n + 5 <= fs -> pre_item it st ->
+      exists st', process_section dir fm it st = Ok st' /\ App st (item_tree dir fs it) st' /\ (Q st -> Q st').
 
   Definition sections_ref n :=
     forall fm fs L bs st, dblocks_size bs <= n -> 4 * n + 3 <= fm -> 4 * n + 3 <= fs ->
-      Forall plain bs -> headed bs -> J st ->
+      headed bs -> J st ->
       exists st', process_sections dir fm L bs st = Ok st' /\ App st (sections_tree dir fs L bs) st'.
 
   Definition blocks_ref n :=
     forall fm fs bs st, dblocks_size bs <= n -> 4 * n + 4 <= fm -> 4 * n + 4 <= fs ->
-      Forall plain bs -> Qb st -> bs <> [] ->
+      Qb st -> bs <> [] ->
       exists st', process_blocks dir fm bs st = Ok st' /\ App (set_insert st true) (blocks_tree dir fs bs) st'.
 
   (* a run of blocks below a container, the empty run included *)
   Lemma blocks_any m :
     blocks_ref m ->
-    forall fm fs bs st, dblocks_size bs <= m -> 4 * m + 4 <= fm -> 4 * m + 4 <= fs -> Forall plain bs -> Qb st ->
+    forall fm fs bs st, dblocks_size bs <= m -> 4 * m + 4 <= fm -> 4 * m + 4 <= fs -> Qb st ->
       exists st2, process_blocks dir fm bs st = Ok st2 /\
         (exists c2 i2, AppT (b_arena st) (b_cur st) true (blocks_tree dir fs bs) (b_arena st2) c2 i2) /\
         (b_insert st = false -> b_insert st2 = false).
   Proof.
-    intros HB fm fs bs st Hsz Hfm Hfs Hok HQ. destruct bs as [|b0 bs0].
+    intros HB fm fs bs st Hsz Hfm Hfs HQ. destruct bs as [|b0 bs0].
     - destruct fm as [|fm]; [lia|]. rewrite process_blocks_S, blocks_tree_nil.
       exists st. split; [reflexivity|]. split; [|auto]. exists (b_cur st), true. apply AppT_nil.
-    - destruct (HB fm fs (b0 :: bs0) st Hsz Hfm Hfs Hok HQ ltac:(discriminate)) as (st2 & H2 & A2).
+    - destruct (HB fm fs (b0 :: bs0) st Hsz Hfm Hfs HQ ltac:(discriminate)) as (st2 & H2 & A2).
       exists st2. split; [exact H2|]. unfold App in A2. cbn [set_insert b_arena b_cur b_insert] in A2.
       split; [eauto|]. intros _. eapply AppT_ins; [|exact A2]. apply blocks_tree_ne; [discriminate | lia].
   Qed.
 
   (* items of a list, one after the other from a container state *)
   Lemma items_ref n fm fs its st :
-    section_ref n -> items_plain its -> (forall it, In it its -> dblocks_size it <= n) ->
-    4 * n + 2 <= fm -> 4 * n + 1 <= fs -> Q st ->
+    section_ref n -> (forall it, In it its -> dblocks_size it <= n) ->
+    (its <> [] -> 4 * n + 5 <= fm) -> (its <> [] -> 4 * n + 5 <= fs) -> Q st ->
     exists st', fold_left (fun acc it => do s <- acc; process_section dir fm it s) its (Ok st) = Ok st' /\
                 App st (flat_map (item_tree dir fs) its) st' /\ Q st'.
   Proof.
-    intros HS Hok Hsz Hfm Hfs HQ.
+    intros HS Hsz Hfm Hfs HQ.
     apply (fold_App (fun s it => process_section dir fm it s) (item_tree dir fs) Q its Q_valid st HQ).
     intros it Hin s Hs.
-    unfold items_plain in Hok. rewrite Forall_forall in Hok. destruct (Hok it Hin) as [Hl Hb].
+    assert (Hne : its <> []) by (intros ->; contradiction).
     assert (Hpre : pre_item it s).
     { destruct it as [|h r]; [exact I|]. cbn [pre_item]. destruct (text_lead h); [now apply Q_J | exact Hs]. }
-    destruct (HS fm fs it s (Hsz it Hin) Hfm Hfs Hl Hb Hpre) as (s' & H1 & A1 & HQ1 & _).
+    destruct (HS fm fs it s (Hsz it Hin) (Hfm Hne) (Hfs Hne) Hpre) as (s' & H1 & A1 & HQ1).
     exists s'. auto.
   Qed.
 
@@ -655,8 +662,8 @@ Section Main.
 
   (* a list block: the list node, its items below it, the cursor back on the list node *)
   Lemma list_step n fm fs its st k nd :
-    section_ref n -> items_plain its -> (forall it, In it its -> dblocks_size it <= n) ->
-    4 * n + 2 <= fm -> 4 * n + 1 <= fs -> J st ->
+    section_ref n -> (forall it, In it its -> dblocks_size it <= n) ->
+    (its <> [] -> 4 * n + 5 <= fm) -> (its <> [] -> 4 * n + 5 <= fs) -> J st ->
     is_emptyk k = false -> is_dock k = false -> insertable k = true -> kind_node k = Some nd ->
     exists st',
       (do st <- add_node st k;
@@ -666,11 +673,11 @@ Section Main.
        Ok (set_insert (set_id st id) false)) = Ok st' /\
       App st [T None nd (flat_map (item_tree dir fs) its)] st' /\ J st'.
   Proof.
-    intros HS Hok Hsz Hfm Hfs HJ Hk Hd Hins Hnd.
+    intros HS Hsz Hfm Hfs HJ Hk Hd Hins Hnd.
     destruct (add_node_App st k nd HJ Hk Hd Hnd) as (st1 & H & A1 & Hc & Hi & Hka & _).
     rewrite H. cbn [bind]. cbv zeta.
     assert (HQ : Q (set_insert st1 true)) by (unfold set_insert; apply (Q_at _ _ _ _ k); auto).
-    destruct (items_ref n fm fs its (set_insert st1 true) HS Hok Hsz Hfm Hfs HQ) as (st2 & H2 & A2 & Q2).
+    destruct (items_ref n fm fs its (set_insert st1 true) HS Hsz Hfm Hfs HQ) as (st2 & H2 & A2 & Q2).
     rewrite H2. cbn [bind]. eexists. split; [reflexivity|].
     pose proof (App_ext _ _ _ (Q_valid _ HQ) A2) as E2.
     unfold App in *. cbn [set_insert set_id b_arena b_cur b_insert b_map] in *. rewrite Hi in A1.
@@ -684,7 +691,7 @@ Section Main.
 
   Lemma step_block n : (forall m, m < n -> section_ref m /\ blocks_ref m) -> block_ref n.
   Proof.
-    intros IH fm fs b st Hsz Hfm Hfs Hok Hnh HJ.
+    intros IH fm fs b st Hsz Hfm Hfs Hnh HJ.
     destruct fm as [|fm]; [lia|]. destruct fs as [|fs]; [lia|]. rewrite block_S, block_tree_S.
     destruct b as [lr l|lr lang text|lr bs|its|its|lr lv l|lr|lr h al rows]; try discriminate.
     - (* paragraph: reference or leaf *)
@@ -703,7 +710,7 @@ Section Main.
       rewrite size_quote in Hsz.
       destruct (IH (dblocks_size bs) ltac:(lia)) as [_ HB].
       assert (HQ : Qb (B (b_arena st1) (b_cur st1) true [])) by (exists KQuote; auto).
-      destruct (blocks_any _ HB fm fs bs _ (le_n _) ltac:(lia) ltac:(lia) (proj1 (plain_quote lr bs) Hok) HQ)
+      destruct (blocks_any _ HB fm fs bs _ (le_n _) ltac:(lia) ltac:(lia) HQ)
         as (inner & H2 & (c2 & i2 & A2) & _).
       rewrite H2. cbn [bind]. eexists. split; [reflexivity|].
       cbn [b_arena b_cur b_insert] in A2.
@@ -719,115 +726,153 @@ Section Main.
     - (* ordered list *)
       rewrite size_olist in Hsz. set (n' := items_size its - 1).
       destruct (IH n' ltac:(destruct its; cbn [items_size] in *; lia)) as [HS _].
-      apply (list_step n' fm fs its st KOList NOList HS (proj1 (plain_olist its) Hok)); auto.
+      apply (list_step n' fm fs its st KOList NOList HS); auto.
       + intros it Hin. pose proof (items_size_in it its Hin). unfold n'. lia.
-      + unfold n'. destruct its; cbn [items_size] in *; lia.
-      + unfold n'. destruct its; cbn [items_size] in *; lia.
+      + unfold n'. destruct its; [congruence | cbn [items_size] in *; lia].
+      + unfold n'. destruct its; [congruence | cbn [items_size] in *; lia].
     - (* bullet list *)
       rewrite size_blist in Hsz. set (n' := items_size its - 1).
       destruct (IH n' ltac:(destruct its; cbn [items_size] in *; lia)) as [HS _].
-      apply (list_step n' fm fs its st KBList NBList HS (proj1 (plain_blist its) Hok)); auto.
+      apply (list_step n' fm fs its st KBList NBList HS); auto.
       + intros it Hin. pose proof (items_size_in it its Hin). unfold n'. lia.
-      + unfold n'. destruct its; cbn [items_size] in *; lia.
-      + unfold n'. destruct its; cbn [items_size] in *; lia.
+      + unfold n'. destruct its; [congruence | cbn [items_size] in *; lia].
+      + unfold n'. destruct its; [congruence | cbn [items_size] in *; lia].
     - (* rule *) now apply leaf_step.
     - (* table *) now apply leaf_step.
   Qed.
 
-  (* a text-led item or a section: the section node, the run of its body below it, the cursor back on it *)
-  Lemma text_step m fm fs l lr body st :
-    blocks_ref m -> dblocks_size body <= m -> 4 * m + 4 <= fm -> 4 * m + 4 <= fs -> Forall plain body -> J st ->
+  (* a section node, the run of its blocks below it, the cursor back on it: [first] is what links the
+     section node (with or without a line range) *)
+  Lemma section_step m fm fs il (first : bst -> res bst) body st :
+    (forall st1, add_node st (KSection il) = Ok st1 ->
+       exists st1', first st = Ok st1' /\ b_arena st1' = b_arena st1 /\ b_cur st1' = b_cur st1 /\ b_insert st1' = b_insert st1) ->
+    blocks_ref m -> dblocks_size body <= m -> 4 * m + 4 <= fm -> 4 * m + 4 <= fs -> J st ->
     exists st',
-      (do st <- (do st <- add_node st (KSection (to_ginlines dir l)); Ok (set_lines_range st lr));
-       let id := b_cur st in
-       do st <- process_blocks dir fm body st;
-       Ok (set_id st id)) = Ok st' /\
-      App st [T None (NSection (to_ginlines dir l)) (blocks_tree dir fs body)] st' /\ Q st'.
+      (do st1 <- first st;
+       do st2 <- process_blocks dir fm body st1;
+       Ok (set_id st2 (b_cur st1))) = Ok st' /\
+      App st [T None (NSection il) (blocks_tree dir fs body)] st' /\ Q st'.
   Proof.
-    intros HB Hsz Hfm Hfs Hok HJ.
-    destruct (add_node_App st (KSection (to_ginlines dir l)) (NSection (to_ginlines dir l)) HJ eq_refl eq_refl eq_refl)
+    intros Hfirst HB Hsz Hfm Hfs HJ.
+    destruct (add_node_App st (KSection il) (NSection il) HJ eq_refl eq_refl eq_refl)
       as (st1 & H & A1 & Hc & Hi & Hk & _).
-    rewrite H. cbn [bind]. cbv zeta.
-    assert (HQ : Qb (set_lines_range st1 lr)) by (exists (KSection (to_ginlines dir l)); auto).
-    destruct (blocks_any _ HB fm fs body _ Hsz Hfm Hfs Hok HQ) as (st2 & H2 & (c2 & i2 & A2) & Hi2).
+    destruct (Hfirst st1 H) as (st1' & H' & Ea & Ec & Ei).
+    rewrite H'. cbn [bind].
+    assert (HQ : Qb st1') by (exists (KSection il); rewrite Ea, Ec; auto).
+    destruct (blocks_any _ HB fm fs body _ Hsz Hfm Hfs HQ) as (st2 & H2 & (c2 & i2 & A2) & Hi2).
     rewrite H2. cbn [bind]. eexists. split; [reflexivity|].
-    cbn [set_lines_range b_arena b_cur b_insert] in A2, Hi2.
+    rewrite Ea, Ec in A2. rewrite Ei in Hi2.
     assert (E2 : ext (b_arena st1) (b_arena st2))
       by (eapply AppT_ext; [|exact A2]; now apply kind_at_lt in Hk).
-    unfold App in *. cbn [set_id set_lines_range b_arena b_cur b_insert]. rewrite Hi in A1. rewrite (Hi2 Hi).
+    unfold App in *. cbn [set_id b_arena b_cur b_insert]. rewrite Hi in A1. rewrite (Hi2 Hi). rewrite Ec.
     split.
     - eapply AppT_wrap; eauto. apply (J_valid _ HJ).
-    - apply (Q_at _ _ _ _ (KSection (to_ginlines dir l))); auto.
+    - apply (Q_at _ _ _ _ (KSection il)); auto.
       destruct E2 as [_ K2]; rewrite K2; [exact Hk | now apply kind_at_lt in Hk].
   Qed.
 
-  Lemma step_section n : (forall m, m < n -> section_ref m /\ blocks_ref m) -> section_ref n.
+  Lemma first_lines st il lr :
+    forall st1, add_node st (KSection il) = Ok st1 ->
+      exists st1', (do s <- add_node st (KSection il); Ok (set_lines_range s lr)) = Ok st1' /\
+                   b_arena st1' = b_arena st1 /\ b_cur st1' = b_cur st1 /\ b_insert st1' = b_insert st1.
+  Proof. intros st1 H. rewrite H. cbn [bind]. eexists. split; [reflexivity|]. auto. Qed.
+
+  Lemma first_plain st il :
+    forall st1, add_node st (KSection il) = Ok st1 ->
+      exists st1', add_node st (KSection il) = Ok st1' /\
+                   b_arena st1' = b_arena st1 /\ b_cur st1' = b_cur st1 /\ b_insert st1' = b_insert st1.
+  Proof. intros st1 H. exists st1. auto. Qed.
+
+  Lemma step_hsection n : (forall m, m < n -> blocks_ref m) -> hsection_ref n.
   Proof.
-    intros IH fm fs it st Hsz Hfm Hfs Hl Hok Hpre.
+    intros IH fm fs h body st Hsz Hfm Hfs Htl HJ.
     destruct fm as [|fm]; [lia|]. destruct fs as [|fs]; [lia|]. rewrite process_section_S, item_tree_S.
+    rewrite dblocks_size_cons in Hsz. pose proof (dblock_size_pos h) as Hpos.
+    destruct fm as [|fm]; [lia|]. rewrite section_block_S.
+    pose proof (IH (dblocks_size body) ltac:(lia)) as HB.
+    destruct h as [lr l|lr lang text|lr bs|its|its|lr lv l|lr|lr hh al rows]; try discriminate;
+      cbn [starts_with_header lead_inlines].
+    - cbv zeta.
+      apply (section_step _ (S fm) fs (to_ginlines dir l)
+               (fun s => do s1 <- add_node s (KSection (to_ginlines dir l)); Ok (set_lines_range s1 lr))
+               body st (first_lines st _ lr) HB (le_n _)); auto; lia.
+    - cbv zeta.
+      apply (section_step _ (S fm) fs (to_ginlines dir l)
+               (fun s => do s1 <- add_node s (KSection (to_ginlines dir l)); Ok (set_lines_range s1 lr))
+               body st (first_lines st _ lr) HB (le_n _)); auto; lia.
+  Qed.
+
+  Lemma step_section n :
+    hsection_ref n -> blocks_ref n -> (forall m, m < n -> section_ref m) -> section_ref n.
+  Proof.
+    intros HH HBn IH fm fs it st Hsz Hfm Hfs Hpre.
     destruct it as [|h body].
-    - exists st. split; [reflexivity|]. split; [apply App_nil|]. split; [auto | intros; discriminate].
-    - inversion Hok as [|? ? Hh Hb]; subst. rewrite dblocks_size_cons in Hsz.
-      pose proof (dblock_size_pos h) as Hpos.
-      destruct fm as [|fm]; [lia|]. rewrite section_block_S.
-      destruct h as [lr l|lr lang text|lr bs|its|its|lr lv l|lr|lr hh al rows]; try discriminate.
-      + (* paragraph lead *)
-        destruct (IH (dblocks_size body) ltac:(lia)) as [_ HB]. cbn [pre_item text_lead] in Hpre.
-        destruct (text_step _ (S fm) fs l lr body st HB (le_n _) ltac:(lia) ltac:(lia) Hb Hpre) as (st' & H & A & HQ).
-        exists st'. cbn [lead_inlines]. auto.
-      + (* ordered list lead: its items are items of the enclosing list *)
-        destruct body as [|? ?]; [|discriminate]. rewrite size_olist in Hsz. cbn [pre_item text_lead] in Hpre.
-        set (n' := items_size its - 1).
-        destruct (IH n' ltac:(destruct its; cbn [items_size dblocks_size fold_right] in *; lia)) as [HS _].
-        destruct (items_ref n' fm fs its st HS (proj1 (plain_olist its) Hh)) as (st1 & H1 & A1 & Q1); auto.
-        { intros it Hin. pose proof (items_size_in it its Hin). unfold n'. lia. }
-        { unfold n'. destruct its; cbn [items_size dblocks_size fold_right] in *; lia. }
-        { unfold n'. destruct its; cbn [items_size dblocks_size fold_right] in *; lia. }
-        rewrite H1. cbn [bind]. cbv zeta. rewrite process_blocks_S. cbn [bind].
-        eexists. split; [reflexivity|]. unfold App in *. cbn [set_id b_arena b_cur b_insert].
-        split; [exact A1|]. split; [|intros ? ? E; inversion E; subst; discriminate].
-        intros _. destruct Q1 as (k & ? & ? & ?). exists k. cbn [set_id b_arena b_cur]. auto.
-      + (* bullet list lead *)
-        destruct body as [|? ?]; [|discriminate]. rewrite size_blist in Hsz. cbn [pre_item text_lead] in Hpre.
-        set (n' := items_size its - 1).
-        destruct (IH n' ltac:(destruct its; cbn [items_size dblocks_size fold_right] in *; lia)) as [HS _].
-        destruct (items_ref n' fm fs its st HS (proj1 (plain_blist its) Hh)) as (st1 & H1 & A1 & Q1); auto.
-        { intros it Hin. pose proof (items_size_in it its Hin). unfold n'. lia. }
-        { unfold n'. destruct its; cbn [items_size dblocks_size fold_right] in *; lia. }
-        { unfold n'. destruct its; cbn [items_size dblocks_size fold_right] in *; lia. }
-        rewrite H1. cbn [bind]. cbv zeta. rewrite process_blocks_S. cbn [bind].
-        eexists. split; [reflexivity|]. unfold App in *. cbn [set_id b_arena b_cur b_insert].
-        split; [exact A1|]. split; [|intros ? ? E; inversion E; subst; discriminate].
-        intros _. destruct Q1 as (k & ? & ? & ?). exists k. cbn [set_id b_arena b_cur]. auto.
-      + (* heading lead *)
-        destruct (IH (dblocks_size body) ltac:(lia)) as [_ HB]. cbn [pre_item text_lead] in Hpre.
-        destruct (text_step _ (S fm) fs l lr body st HB (le_n _) ltac:(lia) ltac:(lia) Hb Hpre) as (st' & H & A & HQ).
-        exists st'. cbn [lead_inlines]. auto.
+    - destruct fm as [|fm]; [lia|]. destruct fs as [|fs]; [lia|]. rewrite process_section_S, item_tree_S.
+      exists st. split; [reflexivity|]. split; [apply App_nil | auto].
+    - cbn [pre_item] in Hpre.
+      destruct (text_lead h) eqn:Htl.
+      + destruct (HH fm fs h body st Hsz ltac:(lia) ltac:(lia) Htl Hpre) as (st' & H & A & HQ).
+        exists st'. auto.
+      + (* no text: one list alone is merged, anything else is a section without text over all blocks *)
+        assert (Hodd : starts_with_header (h :: body) = false ->
+                  exists st', process_section dir fm (h :: body) st = Ok st' /\
+                              App st [T None (NSection []) (blocks_tree dir (pred fs) (h :: body))] st' /\ (Q st -> Q st')).
+        { intros Hs. destruct fm as [|fm]; [lia|]. rewrite process_section_S, Hs. cbv zeta.
+          destruct (section_step n fm (pred fs) [] (fun s => add_node s (KSection [])) (h :: body) st (first_plain st [])
+                      HBn Hsz ltac:(lia) ltac:(lia) (Q_J _ Hpre)) as (st' & H & A & HQ).
+          exists st'. auto. }
+        destruct fs as [|fs]; [lia|]. cbn [pred] in Hodd. rewrite item_tree_S.
+        pose proof Hsz as Hsz0. rewrite dblocks_size_cons in Hsz. pose proof (dblock_size_pos h) as Hpos.
+        destruct h as [lr l|lr lang text|lr bs|its|its|lr lv l|lr|lr hh al rows]; try discriminate;
+          try (apply Hodd; reflexivity).
+        * (* ordered list lead *)
+          destruct body as [|b1 body]; [|apply Hodd; reflexivity].
+          destruct fm as [|fm]; [lia|]. rewrite process_section_S. cbn [starts_with_header].
+          destruct fm as [|fm]; [lia|]. rewrite section_block_S.
+          rewrite size_olist in Hsz. set (n' := items_size its - 1).
+          assert (HS : section_ref n') by (apply IH; unfold n'; destruct its; cbn [items_size dblocks_size fold_right] in *; lia).
+          destruct (items_ref n' fm fs its st HS) as (st1 & H1 & A1 & Q1); auto.
+          { intros it Hin. pose proof (items_size_in it its Hin). unfold n'. lia. }
+          { unfold n'. destruct its; [congruence | cbn [items_size dblocks_size fold_right] in *; lia]. }
+          { unfold n'. destruct its; [congruence | cbn [items_size dblocks_size fold_right] in *; lia]. }
+          rewrite H1. cbn [bind]. cbv zeta. rewrite process_blocks_S. cbn [bind].
+          eexists. split; [reflexivity|]. unfold App in *. cbn [set_id b_arena b_cur b_insert].
+          split; [exact A1|].
+          intros _. destruct Q1 as (k & ? & ? & ?). exists k. cbn [set_id b_arena b_cur]. auto.
+        * (* bullet list lead *)
+          destruct body as [|b1 body]; [|apply Hodd; reflexivity].
+          destruct fm as [|fm]; [lia|]. rewrite process_section_S. cbn [starts_with_header].
+          destruct fm as [|fm]; [lia|]. rewrite section_block_S.
+          rewrite size_blist in Hsz. set (n' := items_size its - 1).
+          assert (HS : section_ref n') by (apply IH; unfold n'; destruct its; cbn [items_size dblocks_size fold_right] in *; lia).
+          destruct (items_ref n' fm fs its st HS) as (st1 & H1 & A1 & Q1); auto.
+          { intros it Hin. pose proof (items_size_in it its Hin). unfold n'. lia. }
+          { unfold n'. destruct its; [congruence | cbn [items_size dblocks_size fold_right] in *; lia]. }
+          { unfold n'. destruct its; [congruence | cbn [items_size dblocks_size fold_right] in *; lia]. }
+          rewrite H1. cbn [bind]. cbv zeta. rewrite process_blocks_S. cbn [bind].
+          eexists. split; [reflexivity|]. unfold App in *. cbn [set_id b_arena b_cur b_insert].
+          split; [exact A1|].
+          intros _. destruct Q1 as (k & ? & ? & ?). exists k. cbn [set_id b_arena b_cur]. auto.
   Qed.
 
   Lemma step_sections n :
-    section_ref n -> (forall m, m < n -> sections_ref m) -> sections_ref n.
+    hsection_ref n -> (forall m, m < n -> sections_ref m) -> sections_ref n.
   Proof.
-    intros HS IH fm fs L bs st Hsz Hfm Hfs Hok Hhd HJ.
+    intros HS IH fm fs L bs st Hsz Hfm Hfs Hhd HJ.
     destruct fm as [|fm]; [lia|]. destruct fs as [|fs]; [lia|]. rewrite process_sections_S, sections_tree_S.
     destruct bs as [|h r]; [exists st; split; [reflexivity | apply App_nil]|].
     cbv zeta.
     destruct (span_section L r) as [body rest] eqn:Es.
     destruct (span_section_spec L r body rest Es) as [Hr Hrest]. subst r.
-    inversion Hok as [|? ? Hh Hb]; subst. apply Forall_app in Hb as [Hbody Hrst].
     rewrite dblocks_size_cons, dblocks_size_app in Hsz.
     pose proof (dblock_size_pos h) as Hpos.
     cbn [headed] in Hhd. destruct h as [| | | | |lr lv l| |]; try discriminate.
-    destruct (HS fm (S fs) (DHeader lr lv l :: body) st) as (st1 & H1 & A1 & _ & Q1).
+    destruct (HS fm (S fs) (DHeader lr lv l) body st) as (st1 & H1 & A1 & Q1); auto.
     { rewrite dblocks_size_cons. lia. }
     { lia. }
     { lia. }
-    { reflexivity. }
-    { constructor; assumption. }
-    { cbn [pre_item text_lead]. exact HJ. }
     rewrite H1. cbn [bind]. rewrite item_tree_S in A1.
-    specialize (Q1 _ _ eq_refl eq_refl).
-    destruct (IH (dblocks_size rest) ltac:(lia) fm fs L rest st1 (le_n _) ltac:(lia) ltac:(lia) Hrst Hrest (Q_J _ Q1))
+    destruct (IH (dblocks_size rest) ltac:(lia) fm fs L rest st1 (le_n _) ltac:(lia) ltac:(lia) Hrest (Q_J _ Q1))
       as (st2 & H2 & A2).
     exists st2. split; [exact H2|].
     apply (App_trans st [T None (NSection (lead_inlines dir (DHeader lr lv l))) (blocks_tree dir fs body)] st1 _ st2
@@ -836,17 +881,17 @@ Section Main.
 
   Lemma step_blocks n : block_ref n -> sections_ref n -> blocks_ref n.
   Proof.
-    intros HB HSs fm fs bs st Hsz Hfm Hfs Hok HQ Hne.
+    intros HB HSs fm fs bs st Hsz Hfm Hfs HQ Hne.
     destruct fm as [|fm]; [lia|]. destruct fs as [|fs]; [lia|]. rewrite process_blocks_S, blocks_tree_S.
     destruct bs as [|b0 bs0]; [congruence|].
     cbv zeta.
     destruct (span_pre (b0 :: bs0)) as [pre rest] eqn:Es.
     destruct (span_pre_spec _ pre rest Es) as (Hbs & Hpre & Hrest).
-    rewrite Hbs in Hok, Hsz. apply Forall_app in Hok as [Hokp Hokr]. rewrite dblocks_size_app in Hsz.
+    rewrite Hbs in Hsz. rewrite dblocks_size_app in Hsz.
     pose proof (Qb_J_true st HQ) as HJ0.
     destruct (fold_App (fun s b => block dir fm b s) (block_tree dir fs) J pre J_valid (set_insert st true) HJ0)
       as (st1 & H1 & A1 & J1).
-    { intros b Hin s Hs. rewrite Forall_forall in Hokp, Hpre.
+    { intros b Hin s Hs. rewrite Forall_forall in Hpre.
       apply (HB fm fs b s); auto.
       - assert (dblock_size b <= dblocks_size pre).
         { clear - Hin. induction pre as [|x l IHl]; [contradiction|]. rewrite dblocks_size_cons.
@@ -858,18 +903,19 @@ Section Main.
     destruct rest as [|h r]; [exists st1; split; [reflexivity | now rewrite app_nil_r]|].
     cbn [headed] in Hrest.
     destruct (header_level h) as [L|] eqn:EL; [|exists st1; split; [reflexivity | now rewrite app_nil_r]].
-    destruct (HSs fm fs L (h :: r) st1 ltac:(lia) ltac:(lia) ltac:(lia) Hokr Hrest J1) as (st2 & H2 & A2).
+    destruct (HSs fm fs L (h :: r) st1 ltac:(lia) ltac:(lia) ltac:(lia) Hrest J1) as (st2 & H2 & A2).
     exists st2. split; [exact H2|]. eapply App_trans; eauto. apply (J_valid _ HJ0).
   Qed.
 
-  (* all four, for every size *)
-  Theorem builder_refines n : block_ref n /\ section_ref n /\ sections_ref n /\ blocks_ref n.
+  (* all five, for every size *)
+  Theorem builder_refines n : block_ref n /\ hsection_ref n /\ sections_ref n /\ blocks_ref n /\ section_ref n.
   Proof.
     induction n as [n IH] using lt_wf_ind.
-    assert (HB : block_ref n) by (apply step_block; intros m Hm; destruct (IH m Hm) as (_ & ? & _ & ?); auto).
-    assert (HS : section_ref n) by (apply step_section; intros m Hm; destruct (IH m Hm) as (_ & ? & _ & ?); auto).
-    assert (HSs : sections_ref n) by (apply step_sections; [exact HS | intros m Hm; now destruct (IH m Hm) as (_ & _ & ? & _)]).
-    repeat split; auto. now apply step_blocks.
+    assert (HB : block_ref n) by (apply step_block; intros m Hm; destruct (IH m Hm) as (_ & _ & _ & ? & ?); auto).
+    assert (HH : hsection_ref n) by (apply step_hsection; intros m Hm; now destruct (IH m Hm) as (_ & _ & _ & ? & _)).
+    assert (HSs : sections_ref n) by (apply step_sections; [exact HH | intros m Hm; now destruct (IH m Hm) as (_ & _ & ? & _)]).
+    assert (HBs : blocks_ref n) by now apply step_blocks.
+    repeat split; auto. apply step_section; auto. intros m Hm; now destruct (IH m Hm) as (_ & _ & _ & _ & ?).
   Qed.
 End Main.
 
@@ -885,14 +931,13 @@ Qed.
 (* the tree read back from the arena is the specified tree, numbered in pre-order from the root's id,
    and the arena grew by exactly the nodes of that tree *)
 Theorem sections_refines_label (a : arena) (key : string) (bs : list dblock) :
-  Forall (fun b => plain_items b = true) bs ->
   exists st, build_document a key bs = Ok st /\
              collect_raw (b_arena st) (length a) = Ok (Some (label (spec_tree key bs) (length a))) /\
              length (b_arena st) = length a + tsz (spec_tree key bs).
 Proof.
-  intros Hok. unfold build_document, spec_tree, note_tree.
+  unfold build_document, spec_tree, note_tree.
   set (dir := key_parent key). set (doc := GN (KDocument key) None None None).
-  destruct (builder_refines dir (dblocks_size bs)) as (_ & _ & _ & HB).
+  destruct (builder_refines dir (dblocks_size bs)) as (_ & _ & _ & HB & _).
   assert (HQ : Qb (build_key a key)).
   { exists (KDocument key). cbn [build_key b_arena b_cur]. split; [|reflexivity].
     unfold kind_at. now rewrite get_app_new. }
@@ -919,12 +964,11 @@ Qed.
 Print Assumptions sections_refines_label.
 
 Theorem sections_refines (a : arena) (key : string) (bs : list dblock) :
-  Forall (fun b => plain_items b = true) bs ->
   exists st t, build_document a key bs = Ok st /\
                collect_raw (b_arena st) (length a) = Ok (Some t) /\
                tree_eqb_noid t (spec_tree key bs) = true.
 Proof.
-  intros Hok. destruct (sections_refines_label a key bs Hok) as (st & H & C & _).
+  destruct (sections_refines_label a key bs) as (st & H & C & _).
   exists st, (label (spec_tree key bs) (length a)). repeat split; auto. apply tree_eqb_noid_label.
 Qed.
 Print Assumptions sections_refines.
@@ -932,44 +976,29 @@ Print Assumptions sections_refines.
 (* the id part: nodes are allocated in document order, so the ids of the tree read back are
    length a, length a + 1, ... in pre-order, and they are exactly the slots the builder added *)
 Theorem sections_refines_ids (a : arena) (key : string) (bs : list dblock) :
-  Forall (fun b => plain_items b = true) bs ->
   exists st t, build_document a key bs = Ok st /\
                collect_raw (b_arena st) (length a) = Ok (Some t) /\
                pre_ids t = map Some (seq (length a) (tsz t)) /\
                length (b_arena st) = length a + tsz t.
 Proof.
-  intros Hok. destruct (sections_refines_label a key bs Hok) as (st & H & C & L).
+  destruct (sections_refines_label a key bs) as (st & H & C & L).
   exists st, (label (spec_tree key bs) (length a)). rewrite tsz_label. repeat split; auto. apply pre_ids_label.
 Qed.
 Print Assumptions sections_refines_ids.
 
-(* the class excluded by the hypothesis is real (F-ITEMLEAD): in an item that starts with a list and
-   holds further blocks, the run of the further blocks starts below the inner list's last item and
-   overwrites its child link: the read-back tree is not the specified one (here "b" is lost) *)
+(* the former witness of F-ITEMLEAD (an item that starts with a list and holds further blocks: the run
+   of the further blocks used to start below the inner list's last item and overwrite its child
+   link, losing "b"): the item is now one section without text over the inner list and "c" *)
 Definition itemlead_witness : list dblock :=
   [DBList [[DBList [[DPara (0, 1) [Str "a"]; DPara (1, 2) [Str "b"]]]; DPara (2, 3) [Str "c"]]]].
 
-Theorem sections_refines_itemlead_refuted :
-  exists bs st t, forallb plain_items bs = false /\
-    build_document [] "n" bs = Ok st /\ collect_raw (b_arena st) 0 = Ok (Some t) /\
-    tree_eqb_noid t (spec_tree "n" bs) = false /\ bs = itemlead_witness.
-Proof.
-  exists itemlead_witness. eexists. eexists.
-  split; [reflexivity|]. split; [vm_compute; reflexivity|]. split; [vm_compute; reflexivity|].
-  split; [vm_compute; reflexivity | reflexivity].
-Qed.
-Print Assumptions sections_refines_itemlead_refuted.
-(* read back:  Document [BList [Section "a" [Leaf "c"]]]   (ids 0 1 2 4: node 3, the leaf "b", is unlinked)
-   specified:  Document [BList [Section "a" [Leaf "b"]]]   (the specification ignores what follows the inner list) *)
-
-(* the hypothesis of the theorems is satisfiable by nested, non-trivial inputs: test1 / test2 above
-   are instances of sections_refines_label on block lists of the claimed class *)
-Example sections_refines_nonvacuous :
-  Forall (fun b => plain_items b = true) sample1 /\ Forall (fun b => plain_items b = true) sample2 /\
-  tsz (spec_tree "d/k" sample1) = 20.
-Proof.
-  split; [|split]; [apply Forall_forall, forallb_forall; reflexivity .. | vm_compute; reflexivity].
-Qed.
+Example sections_refines_itemlead :
+  spec_tree "n" itemlead_witness =
+  T None (NDocument "n")
+    [T None NBList [T None (NSection [])
+       [T None NBList [T None (NSection [Str "a"]) [T None (NLeaf [Str "b"]) []]]; T None (NLeaf [Str "c"]) []]]] /\
+  read_back [] "n" itemlead_witness = Ok (Some (label (spec_tree "n" itemlead_witness) 0)).
+Proof. split; vm_compute; reflexivity. Qed.
 
 (* ---------- C01 / C07 end to end: the theorems about the specification hold for what the builder builds ---- *)
 Lemma first_is_leaf_labelf ts k : first_is_leaf (labelf ts k) = first_is_leaf ts.
@@ -1000,12 +1029,11 @@ Proof.
 Qed.
 
 Theorem built_conserves (a : arena) (key : string) (bs : list dblock) :
-  Forall (fun b => plain_items b = true) bs ->
   exists st t, build_document a key bs = Ok st /\ collect_raw (b_arena st) (length a) = Ok (Some t) /\
     tcontent (key_parent key) t = bscontent (key_parent key) bs /\
     flat_map gcontent (project (key_parent key) t) = bscontent (key_parent key) bs.
 Proof.
-  intros Hok. destruct (sections_refines_label a key bs Hok) as (st & H & C & _).
+  destruct (sections_refines_label a key bs) as (st & H & C & _).
   exists st, (label (spec_tree key bs) (length a)). split; [exact H|]. split; [exact C|].
   rewrite <- project_conserves. unfold project.
   rewrite (proj1 (project_label (key_parent key) (spec_tree key bs))).
@@ -1014,11 +1042,11 @@ Qed.
 Print Assumptions built_conserves.
 
 Theorem built_identity (a : arena) (key : string) (bs : list dblock) :
-  Forall (fun b => plain_items b = true) bs -> well_nested (hlv bs) = true ->
+  well_nested (hlv bs) = true ->
   exists st t, build_document a key bs = Ok st /\ collect_raw (b_arena st) (length a) = Ok (Some t) /\
     glevels (project (key_parent key) t) = hlv bs.
 Proof.
-  intros Hok Hwn. destruct (sections_refines_label a key bs Hok) as (st & H & C & _).
+  intros Hwn. destruct (sections_refines_label a key bs) as (st & H & C & _).
   exists st, (label (spec_tree key bs) (length a)). split; [exact H|]. split; [exact C|].
   unfold project. rewrite (proj1 (project_label (key_parent key) (spec_tree key bs))).
   now apply note_identity.
